@@ -219,6 +219,49 @@ func (p *pathState) side(t *Term) {
 // constant. Variables are created per path, so the mutation is path-local. Intervals are
 // only used to fold comparisons that are implied by the path condition.
 func narrow(t *Term) {
+	if t.op == "or" {
+		// a disjunction of equalities of one variable with constants bounds the variable
+		var v *Term
+		var lo, hi *big.Int
+		var walk func(x *Term) bool
+		walk = func(x *Term) bool {
+			if x.op == "or" {
+				for _, a := range x.args {
+					if !walk(a) {
+						return false
+					}
+				}
+				return true
+			}
+			if x.op != "=" || len(x.args) != 2 {
+				return false
+			}
+			a, c := x.args[0], x.args[1]
+			if a.op == "const" {
+				a, c = c, a
+			}
+			if a.op != "var" || a.isBool || c.op != "const" || (v != nil && v != a) {
+				return false
+			}
+			v = a
+			if lo == nil || c.val.Cmp(lo) < 0 {
+				lo = c.val
+			}
+			if hi == nil || c.val.Cmp(hi) > 0 {
+				hi = c.val
+			}
+			return true
+		}
+		if walk(t) && v != nil {
+			if v.lo == nil || lo.Cmp(v.lo) > 0 {
+				v.lo = lo
+			}
+			if v.hi == nil || hi.Cmp(v.hi) < 0 {
+				v.hi = hi
+			}
+		}
+		return
+	}
 	neg := false
 	if t.op == "not" {
 		neg = true
